@@ -163,7 +163,10 @@ def build_world(c: Dict[str, Any], alone: Optional[str] = None) -> Tuple[K.World
                     if isinstance(peer, ReactiveClient):
                         peer.act = (lambda p=peer: (p._send_some(None) if p.seg_i >= len(p.segments) else ReactiveClient.act_no_read(p)))     # type: ignore[method-assign]
             plan = None
-            w.add_client(peer, plan=plan)
+            if adv.get('v6'):
+                w.add_client(peer, plan=plan, addr=('::1', 51000, 0, 0))      # an IPv6 peer: accept() reports a 4-tuple
+            else:
+                w.add_client(peer, plan=plan)
             parts['adv'] = peer
         else:
             peer = make_client(who, conversation(canary_role, who))
@@ -346,7 +349,7 @@ def evaluate(c: Dict[str, Any]) -> Tuple[List[Any], Dict[str, Any]]:
     st_ = r['state']
     adv = c['adv']
     f = c.get('fault') or {}
-    feat = {'canary': c['canary'], 'adv': (adv['kind'] if adv['kind'] == 'bytes' else adv['role'] + ('+stuck-origin' if adv.get('stuck_origin') else '')) + ('+reaped' if adv.get('reaped') else ''),
+    feat = {'canary': c['canary'], 'adv': (adv['kind'] if adv['kind'] == 'bytes' else adv['role'] + ('+stuck-origin' if adv.get('stuck_origin') else '')) + ('+reaped' if adv.get('reaped') else '') + ('+ipv6-peer' if adv.get('v6') else ''),
             'fault': f.get('type', 'plugin' if adv.get('explode') else 'none'),
             'what': f.get('errno') or f.get('what') or adv.get('explode')}
     info = {'fired': st_['fired'], 'inflight': st_['canary_inflight_at_fault'] or adv['kind'] == 'bytes' or bool(adv.get('explode')),
@@ -470,6 +473,7 @@ def run_shard(spec: Dict[str, Any], seed: int, acc: Any) -> None:
                     for k_ in range(0, nacts, 2):
                         for pf in ('origin_close', 'origin_reset', 'client_shut'):
                             cases.append(dict(slow, fault={'type': 'peer', 'k': k_, 'what': pf}))
+                cases.append(dict(base, adv={'kind': 'conv', 'role': spec['adv_role'], 'v6': True}))
                 # the adversary falls silent (after its exchange, or - as bytes - in the middle of a request) and is reaped
                 cases.append(dict(base, adv={'kind': 'conv', 'role': spec['adv_role'], 'reaped': True}))
                 cases.append(dict(base, adv={'kind': 'bytes', 'role': spec['adv_role'], 'data': b'GET http://adv.test/half HTTP/1.1\r\nHost: adv', 'cuts': [],
